@@ -240,6 +240,8 @@ type loopFacts struct {
 	allocs       bool
 	localsStored map[*ssa.Alloc]bool
 	typed        typedWrites
+	ghosts       map[string]bool // ghost variables an event or callee in the body may change
+	allGhosts    bool
 }
 
 // typedWrites: an over-approximation of what a loop body may write, by static object type.
@@ -377,7 +379,23 @@ func (vc *VC) contractWrites(act *Act, st *State, fc *FuncContract, names []stri
 }
 
 func (vc *VC) loopEffects(act *Act, body map[*ssa.BasicBlock]bool) loopFacts {
-	lf := loopFacts{localsStored: map[*ssa.Alloc]bool{}}
+	lf := loopFacts{localsStored: map[*ssa.Alloc]bool{}, ghosts: map[string]bool{}}
+	noteEvents := func(kind, key string) {
+		for _, ev := range vc.eng.eventsFor(kind, key) {
+			for _, d := range ev.Do {
+				lf.ghosts[d.Name] = true
+			}
+		}
+	}
+	noteContract := func(fc *FuncContract) {
+		for _, m := range fc.Modifies {
+			for _, it := range m.Items {
+				if it.Kind == "ghost" {
+					lf.ghosts[it.Name] = true
+				}
+			}
+		}
+	}
 	var rootAlloc func(v ssa.Value) *ssa.Alloc
 	rootAlloc = func(v ssa.Value) *ssa.Alloc {
 		switch x := v.(type) {
@@ -399,6 +417,54 @@ func (vc *VC) loopEffects(act *Act, body map[*ssa.BasicBlock]bool) loopFacts {
 				continue
 			}
 			for _, ins := range b.Instrs {
+				for _, sh := range vc.eng.instrShape(ins) {
+					parts := strings.SplitN(sh, " ", 2)
+					if len(parts) == 2 {
+						k := parts[1]
+						if parts[0] == "call" {
+							if j := strings.Index(k, "."); j >= 0 {
+								k = k[j+1:]
+							}
+						}
+						noteEvents(parts[0], k)
+					}
+				}
+				switch i := ins.(type) {
+				case *ssa.Go:
+					noteEvents("go", "")
+				case *ssa.Send:
+					noteEvents("send", "")
+				case *ssa.UnOp:
+					if i.Op == token.ARROW {
+						noteEvents("recv", "")
+					}
+				case *ssa.Lookup:
+					if _, isMap := i.X.Type().Underlying().(*types.Map); isMap {
+						noteEvents("mapread", vc.mapWhat(i.X))
+					}
+				case *ssa.MapUpdate:
+					noteEvents("mapwrite", vc.mapWhat(i.Map))
+				}
+				if ci, ok := ins.(*ssa.Call); ok {
+					if bi, isB := ci.Call.Value.(*ssa.Builtin); isB {
+						switch bi.Name() {
+						case "close":
+							noteEvents("close", "")
+						case "delete":
+							noteEvents("mapdelete", vc.mapWhat(ci.Call.Args[0]))
+						}
+					} else if callee := ci.Call.StaticCallee(); callee != nil {
+						if fc := vc.eng.contractFor(callee); fc != nil {
+							noteContract(fc)
+						} else if vc.eng.externFor(callee) == nil && vc.eng.ifaceContractOfImpl(callee) == nil && len(vc.eng.eventsFor("call", vc.eng.eventKeyOf(callee))) == 0 && vc.eng.mayReachEvent(callee) {
+							lf.allGhosts = true
+						}
+					} else if ci.Call.IsInvoke() {
+						if ic := vc.eng.ifaceContract(ci.Call.Value.Type(), ci.Call.Method.Name()); ic != nil {
+							noteContract(ic)
+						}
+					}
+				}
 				switch i := ins.(type) {
 				case *ssa.Store:
 					if a := rootAlloc(i.Addr); a != nil && !vc.eng.escapes(a) {
@@ -575,21 +641,13 @@ func (vc *VC) cutLoop(act *Act, h *ssa.BasicBlock, st *State, phiVals map[*ssa.P
 		}
 	} else if (lf.writesHeap || lf.calls) && !lf.typed.all {
 		vc.havocTyped(act, ns, st, lf)
-		if lf.calls {
-			for _, g := range vc.eng.contracts.Ghosts {
-				ns.ghost[g] = vc.fresh("gh_"+g, "Int")
-			}
-		}
+		vc.havocLoopGhosts(ns, lf)
 	} else if lf.writesHeap || lf.calls {
 		vc.used["loop havoc (everything): "+lf.typed.why] = true
 		vc.havocLoopAll(act, ns, st, lf)
-		for g := range ns.ghost {
-			ns.ghost[g] = vc.fresh("gh_"+g, "Int")
-		}
-		for _, g := range vc.eng.contracts.Ghosts {
-			ns.ghost[g] = vc.fresh("gh_"+g, "Int")
-		}
+		vc.havocLoopGhosts(ns, lf)
 	} else {
+		vc.havocLoopGhosts(ns, lf)
 		vc.havocLocals(ns, lf, act)
 		if lf.allocs {
 			old := ns.top
@@ -605,6 +663,24 @@ func (vc *VC) cutLoop(act *Act, h *ssa.BasicBlock, st *State, phiVals map[*ssa.P
 		}
 	}
 	return ns
+}
+
+// havocLoopGhosts: only the ghost variables some event or callee frame in the body can change.
+func (vc *VC) havocLoopGhosts(ns *State, lf loopFacts) {
+	if lf.allGhosts {
+		for _, g := range vc.eng.contracts.Ghosts {
+			ns.ghost[g] = vc.fresh("gh_"+g, "Int")
+		}
+		return
+	}
+	var gs []string
+	for g := range lf.ghosts {
+		gs = append(gs, g)
+	}
+	sort.Strings(gs)
+	for _, g := range gs {
+		ns.ghost[g] = vc.fresh("gh_"+g, "Int")
+	}
 }
 
 func (vc *VC) havocLocals(ns *State, lf loopFacts, act *Act) {
